@@ -28,31 +28,44 @@ theorem reach_closed {K : Ctx} (h : K.WF) {x : Nat} (hr : Reach (nbExt K) K.bot 
   | refl => exact bot_closed h
   | step _ hx ih => exact ((mem_nbExt h ih _).mp hx).1
 
-/-- every closed extent is reached from the bottom through covers -/
-theorem closed_reach {K : Ctx} (h : K.WF) : ∀ (N x : Nat), x = N → closedObj K x → Reach (nbExt K) K.bot x := by
+/-- every closed extent above a closed `G` is reached from `G` through covers -/
+theorem closed_reach_from {K : Ctx} (h : K.WF) {G : Nat} (hG : closedObj K G) :
+    ∀ (N x : Nat), x = N → closedObj K x → G ⊆ᵇ x → Reach (nbExt K) G x := by
   intro N
   induction N using Nat.strong_induction_on with
   | _ N ih =>
-    intro x hxN hx
-    by_cases hb : x = K.bot
+    intro x hxN hx hGx
+    by_cases hb : x = G
     · rw [hb]; exact Reach.refl _
-    · -- a maximal closed set strictly below x
-      classical
-      let P : Nat → Prop := fun y => closedObj K y ∧ y ⊆ᵇ x ∧ y ≠ x
-      have hPbot : P K.bot := ⟨bot_closed h, bot_least h hx, fun e => hb e.symm⟩
-      have hPle : ∀ y, P y → y ≤ x := fun y hy => le_of_sub hy.2.1
+    · classical
+      let P : Nat → Prop := fun y => closedObj K y ∧ G ⊆ᵇ y ∧ y ⊆ᵇ x ∧ y ≠ x
+      have hPG : P G := ⟨hG, sub_refl _, hGx, fun e => hb e.symm⟩
+      have hPle : ∀ y, P y → y ≤ x := fun y hy => le_of_sub hy.2.2.1
       let y := Nat.findGreatest P x
-      have hy : P y := Nat.findGreatest_spec (hPle _ hPbot) hPbot
+      have hy : P y := Nat.findGreatest_spec (hPle _ hPG) hPG
       have hmax : ∀ z, P z → z ≤ y := fun z hz => Nat.le_findGreatest (hPle z hz) hz
-      have hylt : y < N := hxN ▸ lt_of_sub_ne hy.2.1 hy.2.2
-      have hRy : Reach (nbExt K) K.bot y := ih y hylt y rfl hy.1
-      refine Reach.step hRy ((mem_nbExt h hy.1 x).mpr ⟨hx, hy.2.1, hy.2.2, ?_⟩)
+      have hylt : y < N := hxN ▸ lt_of_sub_ne hy.2.2.1 hy.2.2.2
+      have hRy : Reach (nbExt K) G y := ih y hylt y rfl hy.1 hy.2.1
+      refine Reach.step hRy ((mem_nbExt h hy.1 x).mpr ⟨hx, hy.2.2.1, hy.2.2.2, ?_⟩)
       intro X hX hyX hXx
       by_cases hXx' : X = x
       · exact Or.inr hXx'
       · left
-        have : X ≤ y := hmax X ⟨hX, hXx, hXx'⟩
+        have : X ≤ y := hmax X ⟨hX, sub_trans hy.2.1 hyX, hXx, hXx'⟩
         exact le_antisymm this (le_of_sub hyX)
+
+/-- every closed extent is reached from the bottom through covers -/
+theorem closed_reach {K : Ctx} (h : K.WF) : ∀ (N x : Nat), x = N → closedObj K x → Reach (nbExt K) K.bot x :=
+  fun N x hx hc => closed_reach_from h (bot_closed h) N x hx hc (bot_least h hc)
+
+/-- conversely, whatever is reached through covers from a closed `G` is a closed superset -/
+theorem reach_from_closed {K : Ctx} (h : K.WF) {G x : Nat} (hG : closedObj K G) (hr : Reach (nbExt K) G x) :
+    closedObj K x ∧ G ⊆ᵇ x := by
+  induction hr with
+  | refl => exact ⟨hG, sub_refl _⟩
+  | step _ hx ih =>
+    have hc := (mem_nbExt h ih.1 _).mp hx
+    exact ⟨hc.1, sub_trans ih.2 hc.2.1⟩
 
 theorem reach_iff_closed {K : Ctx} (h : K.WF) (x : Nat) : Reach (nbExt K) K.bot x ↔ closedObj K x :=
   ⟨reach_closed h, closed_reach h x x rfl⟩
